@@ -1,6 +1,7 @@
 package props
 
 import (
+	"regexp"
 	"unicode/utf8"
 	"strconv"
 	"encoding/json"
@@ -39,6 +40,8 @@ func init() {
 
 func (p *c16) NumCases(tier string, seed int64) int { return tierN(tier, 12000, 900000) }
 
+var c16NumRe = regexp.MustCompile(`-?[0-9]+`)
+
 type c16Case struct {
 	kind     string
 	mods     []*yang.Stmt
@@ -50,6 +53,8 @@ type c16Case struct {
 	unassert map[string]bool
 	// decimal64 with a range: probes with more than 15 significant digits fall into the float64 finding class
 	floatRange bool
+	// types of other widths that carry the same range text as the leaf (the text has min or max in it)
+	sameText []*yang.Stmt
 }
 
 func errFields(err error) (path, msg, tag string) {
@@ -111,9 +116,38 @@ func c16Gen(seed int64, idx int) *c16Case {
 		typ = yang.S("type", name)
 		if r.Chance(2, 3) {
 			set = subParts(r, full, true)
-			rg := yang.S("range", yang.RangeArg(set, 0, full[0].Lo, full[0].Hi, r.Bool))
+			kw := r.Bool
+			if r.Chance(1, 3) {
+				// the set reaches an end of the base type, written with its keyword; the same range text stands
+				// on leaves of other widths next to this one (min and max mean something else on each of them)
+				if r.Bool() {
+					set[len(set)-1].Hi = full[0].Hi
+				} else {
+					set[0].Lo = full[0].Lo
+				}
+				kw = func() bool { return true }
+			}
+			arg := yang.RangeArg(set, 0, full[0].Lo, full[0].Hi, kw)
+			rg := yang.S("range", arg)
 			custom(rg, "range")
 			typ.Add(rg)
+			if strings.Contains(arg, "min") || strings.Contains(arg, "max") {
+				for _, ob := range []int{8, 16, 32, 64} {
+					if ob == bits {
+						continue
+					}
+					of := yang.BuiltinRange(c.kind, ob)
+					fits := true
+					for _, lit := range c16NumRe.FindAllString(arg, -1) {
+						if v, ok := new(big.Int).SetString(lit, 10); !ok || v.Cmp(of[0].Lo) < 0 || v.Cmp(of[0].Hi) > 0 {
+							fits = false
+						}
+					}
+					if fits {
+						c.sameText = append(c.sameText, yang.S("type", strings.TrimRight(name, "0123456789")+fmt.Sprint(ob), yang.S("range", arg)))
+					}
+				}
+			}
 		}
 		c.model = &yang.RType{Kind: c.kind, Bits: bits, Ints: set}
 		for _, iv := range append(append([]yang.Interval{}, set...), full...) {
@@ -407,6 +441,14 @@ func c16Gen(seed int64, idx int) *c16Case {
 		typ.Arg = prev
 		cont.Kids = append([]*yang.Stmt{yang.S("leaf", "sib-before", yang.S("type", prev, yang.S("pattern", ".*")))}, cont.Kids...)
 		cont.Add(yang.S("leaf", "sib-after", yang.S("type", prev, yang.S("pattern", "(.*)|(never)"), yang.S("pattern", ".*"))))
+	}
+	for i, t := range c.sameText {
+		sib := yang.S("leaf", fmt.Sprintf("same-text-%d", i), t)
+		if i%2 == 0 {
+			cont.Kids = append([]*yang.Stmt{sib}, cont.Kids...)
+		} else {
+			cont.Add(sib)
+		}
 	}
 	if c.leafMod == "t16" {
 		m.Add(cont)
